@@ -102,7 +102,12 @@ def gen_tables():
     # every exception handler of the library, and whether it re-raises: Props/C09Catches.lean
     out4 = os.path.join(LEAN, 'NixModel', 'Gen', 'Catches.lean')
     rc4, o4 = sh([sys.executable, os.path.join(VERIF, 'gen', 'extract_catches.py'), REPO, out4])
-    return rc4 == 0, o + o2 + o3 + o4
+    if rc4 != 0:
+        return False, o + o2 + o3 + o4
+    # which accessor (id / name) every by-entity overload of the front end forwards to its backend: Props/C04ByEntity.lean
+    out5 = os.path.join(LEAN, 'NixModel', 'Gen', 'ByEntity.lean')
+    rc5, o5 = sh([sys.executable, os.path.join(VERIF, 'gen', 'extract_byentity.py'), REPO, out5])
+    return rc5 == 0, o + o2 + o3 + o4 + o5
 
 def lake(target):
     env = dict(os.environ)
